@@ -6,7 +6,8 @@ from .sketchgen import Builder, mapspec, STORES, rand_values, spec_list
 from .core import f2h, parse_F, h2f
 
 KINDS = STORES + ["pag", "low:8", "high:16", "low:128"]
-FACTORS = [Fraction(1, 2), Fraction(1, 4), Fraction(3), Fraction(1), Fraction(5, 4), Fraction(3, 8), Fraction(2), Fraction(63, 8), Fraction(1, 1024)]
+FACTORS = [Fraction(1, 2), Fraction(1, 4), Fraction(3), Fraction(1), Fraction(5, 4), Fraction(3, 8), Fraction(2), Fraction(63, 8), Fraction(1, 1024),
+           1 + Fraction(1, 2 ** 30), 1 - Fraction(1, 2 ** 31), 1 + Fraction(1, 2 ** 40), 1 - Fraction(1, 2 ** 20)]          # dyadic factors next to 1 are factors too
 
 def build(rng, facts, name):
     spec = rng.choice(sorted(facts)); b = Builder(name)
@@ -15,6 +16,14 @@ def build(rng, facts, name):
     b.knew("a", spec, kp, kn, exact); b.knew("s", spec, kp, kn, exact)
     n = rng.choice([0, 1, 4, 20, 90]); vals = rand_values(rng, n, -2, 2, signs=rng.choice([(1,), (-1,), (1, -1)]), zeros=0.1)
     ws = [rng.choice([None, None, None, 2.0, 0.5, 3.0, 0.125]) for _ in vals]
+    # one history in five on the array-backed kinds carries weights whose float total depends on the order of summation (a 2^53 next to units, or
+    # 0.3/0.2/0.1): reweighting must scale the running total itself; exact-rational model off, the twin fed scaled weights is the oracle
+    if rng.random() < 0.2 and n:
+        kp, kn = rng.choice(["dense", "low:128", "high:16"]), rng.choice(["dense", "low:128", "high:16"]); b.no_model = True
+        b.lines = []; b.exp = []; b.knew("a", spec, kp, kn, exact); b.knew("s", spec, kp, kn, exact)
+        f = rng.choice([Fraction(2), Fraction(1, 2), Fraction(4), Fraction(1, 8)])
+        ws = [rng.choice([0.3, 0.2, 0.1, 1.1, None]) for _ in vals] if rng.random() < 0.5 else [float(2 ** 53)] + [None] * (len(vals) - 1)
+        vals = sorted(vals, reverse=True)          # decreasing index order of arrival
     if n >= 20: vals += [vals[0]] * 70; ws += [None] * 70          # enough unit entries to have both buffered and paged indexes
     for v, w in zip(vals, ws):
         b.kadd("a", v, w)
